@@ -258,22 +258,12 @@ func (s asciiString) Equals(other Value) bool {
 		return true
 	}
 
-	if o, ok := other.(valueInt); ok {
-		if o1, e := s._toInt(strings.TrimSpace(string(s))); e == nil {
-			return o1 == int64(o)
-		}
-		return false
-	}
-
-	if o, ok := other.(valueFloat); ok {
-		return s.ToFloat() == float64(o)
-	}
-
-	if o, ok := other.(valueBool); ok {
-		if o1, e := s._toFloat(strings.TrimSpace(string(s))); e == nil {
-			return o1 == o.ToFloat()
-		}
-		return false
+	// IsLooselyEqual: a String is compared with a Number (or a Boolean) through ToNumber
+	switch o := other.(type) {
+	case valueInt, valueFloat:
+		return s.ToNumber().Equals(o)
+	case valueBool:
+		return s.ToNumber().Equals(o.ToNumber())
 	}
 
 	if o, ok := other.(*valueBigInt); ok {
